@@ -109,18 +109,41 @@ Definition check_dedup (case : graph pv * observed) : bool :=
   topob (heap g) && agrees_upto_sink_order (deduplicate_nodes (same_payload pv_eqb) g) o.
 
 (* ------------------------------------------------------------------ split *)
-Inductive kfun := KHead | KConst (s : string) | KPay | KOuts | KName | KLast | KLen.
+(* key functions of the harness.  The first seven read the node only; the others read the node's
+   DIRECT inputs too (input names, the output names they select, and of each parent the fields
+   the Splitter never writes: name, payload, outputs, whether it has inputs) -- they are
+   functions of the node and the heap its inputs point into (Graph/Split.v, split_graph). *)
+Inductive kfun := KHead | KConst (s : string) | KPay | KOuts | KName | KLast | KLen
+                | KIo | KNin | KParHead | KParPay | KIname | KOname | KParOuts | KMix | KParNames.
 Definition pv_class (p : option pv) : string :=
   match p with None => "none" | Some (PInt _) => "int" | Some (PStr _) => "str" | Some _ => "seq" end.
-Definition kfun_apply (f : kfun) (nd : node pv) : string :=
+Definition head1 (s : string) : string := match s with String c _ => String c EmptyString | EmptyString => EmptyString end.
+Definition outs_class (o : list string) : string := match o with [] => "sink" | [_] => "one" | _ => "many" end.
+Definition parent_nodes (h : list (node pv)) (nd : node pv) : list (node pv) :=
+  flat_map (fun i => match nth_error h (fst (snd i)) with Some p => [p] | None => [] end) (nins nd).
+Definition key_io (h : list (node pv)) (nd : node pv) : string :=
+  match nins nd with
+  | [] => "io"
+  | _ => if existsb (fun p => match nins p with [] => true | _ => false end) (parent_nodes h nd) then "io" else "compute"
+  end.
+Definition kfun_apply (f : kfun) (h : list (node pv)) (nd : node pv) : string :=
   match f with
-  | KHead => match nname nd with String c _ => String c EmptyString | EmptyString => EmptyString end
+  | KHead => head1 (nname nd)
   | KConst s => s
   | KPay => pv_class (npay nd)
-  | KOuts => match nouts nd with [] => "sink" | [_] => "one" | _ => "many" end
+  | KOuts => outs_class (nouts nd)
   | KName => nname nd
   | KLast => let n := nname nd in String.substring (String.length n - 1) 1 n
   | KLen => if Nat.odd (String.length (nname nd)) then "1" else "0"
+  | KIo => key_io h nd
+  | KNin => match nins nd with [] => "0" | [_] => "1" | _ => "2" end
+  | KParHead => match parent_nodes h nd with [] => "-" | p :: _ => head1 (nname p) end
+  | KParPay => match parent_nodes h nd with [] => "src" | p :: _ => pv_class (npay p) end
+  | KIname => match nins nd with [] => "-" | i :: _ => fst i end
+  | KOname => match nins nd with [] => "-" | i :: _ => snd (snd i) end
+  | KParOuts => match rev (parent_nodes h nd) with [] => "-" | p :: _ => outs_class (nouts p) end
+  | KMix => head1 (nname nd) ++ "/" ++ key_io h nd
+  | KParNames => String.concat "," (map (@nname pv) (parent_nodes h nd))
   end.
 
 Definition cut_eqb (a b : cutedge string) : bool :=
